@@ -92,7 +92,7 @@ def get_next_linebox(context, linebox, position_y, bottom_space, skip_stack,
         line_children = []
 
         (line, resume_at, preserved_line_break, first_letter,
-         last_letter, float_width) = split_inline_box(
+         last_letter, float_widths) = split_inline_box(
              context, linebox, position_x, max_x, bottom_space, skip_stack,
              containing_block, line_absolutes, line_fixed, line_placeholders,
              waiting_floats, line_children)
@@ -131,6 +131,9 @@ def get_next_linebox(context, linebox, position_y, bottom_space, skip_stack,
         if containing_block.style['direction'] == 'rtl':
             offset_x *= -1
             offset_x -= line.width
+            # The line ends at the left of the right floats met in the line
+            offset_x -= float_widths['right']
+            offset_x -= line.position_x - original_position_x
 
         # Floats have already been placed horizontally, move the text only
         line.translate(offset_x, 0, ignore_floats=True)
